@@ -111,6 +111,11 @@ class Bench:
             return ORIGIN if spec == "@" else spec + "." + ORIGIN
         if form == "rel":
             return dns.name.empty if spec == "@" else dns.name.from_text(spec, None)
+        if form == "rel_upper":
+            # names compare case-insensitively: another spelling of the same owner
+            return dns.name.empty if spec == "@" else dns.name.from_text(spec.upper(), None)
+        if form == "abs_upper":
+            return dns.name.from_text((ORIGIN if spec == "@" else spec + "." + ORIGIN).upper())
         return self.absname(spec)
 
     def name_obj(self, spec, form):
@@ -309,7 +314,7 @@ def gen_name(rng, allow_bad=True, names=None):
     if allow_bad and r < 0.05:
         return "LONG", rng.choice(["rel", "str_rel"])
     n = rng.choice(names or NAMES)
-    return n, rng.choice(["rel", "abs", "str_rel", "str_abs"])
+    return n, rng.choice(["rel", "abs", "str_rel", "str_abs", "rel", "abs", "rel_upper", "abs_upper"])
 
 
 def gen_put(rng, o=None, names=None, types=None, allow_bad=True):
